@@ -67,6 +67,10 @@ pub struct LinkFile {
     /// characters of `filed_under`'s key id (e.g. dots followed by fewer than eight of them)
     #[serde(default)]
     pub name_field: Option<String>,
+    /// the entry in the link directory is a symbolic link; the document itself lies in `<dir>/.store/` under the
+    /// name it would properly have (`<step>.<first eight characters of filed_under's id>.link`)
+    #[serde(default)]
+    pub symlink_store: bool,
     pub body: Body,
 }
 
@@ -331,7 +335,15 @@ fn write_world_inner(w: &World, dir: &Path) -> MatInfo {
             Body::Link { link, sigs, tamper } => {
                 let (text, info) = signed_text(&MetadataWrapper::Link(link.to_lib()), sigs, tamper);
                 // an unrepresentable file name (NUL, '/') simply means the file is absent
-                if std::fs::write(&path, text).is_ok() {
+                let written = if f.symlink_store {
+                    let store = dir.join(".store");
+                    let _ = std::fs::create_dir_all(&store);
+                    let proper = format!("{}.{}.link", f.step, prefix8(&f.filed_under));
+                    std::fs::write(store.join(&proper), text).is_ok() && std::os::unix::fs::symlink(format!(".store/{}", proper), &path).is_ok()
+                } else {
+                    std::fs::write(&path, text).is_ok()
+                };
+                if written {
                     files.push((info, None));
                 } else {
                     files.push((DocInfo { parses: false, tampered: true }, None));
